@@ -6,3 +6,5 @@ cd "$(dirname "$0")"
 /venv/bin/python harness/gen_model.py >/dev/null
 cd lean
 lake build Switcher modeldriver specjudge
+# every property module (the checks rebuild only what a changed Gen/ invalidates)
+lake build $(ls Switcher/Props/C*.lean | sed 's#/#.#g; s#\.lean$##')
